@@ -68,6 +68,7 @@ def scenarios(quick):
     for i in range(40 if quick else 150):
         dchurn += ["conf+%d" % (2 + i % 4), "conf-%d" % (2 + i % 4)]
     out.append({"name": "dial-churn", "steps": ["dialers", "create:1"] + dchurn + ["create:1", "delete"]})
+    out.append({"name": "read-churn", "steps": ["readers", "create:1"] + dchurn + ["create:2", "delete"]})
     out.append({"name": "dial-churn-burst", "steps": ["dialers", "create:1", "settle", "burst"] + dchurn + ["create:1", "delete"]})
     # a partition whose raft group has no leader (its other replica is not there): the peer is removed, the
     # dataset deleted, further catalogue changes follow - every wait on that group has to be abandonable
